@@ -7,7 +7,8 @@ package state
 
 // Property C10 — "a copy of a state is equal to and independent of the original" (clause 1: copy completeness and independence)
 // and the write-set completeness of IntermediateRoot / Commit (clause 3). Reopening from roots and root determinism are NOT decided
-// here (trie = C13, reflective RLP = C14).
+// here (trie = C13, reflective RLP = C14), with one exception (clause 4, end of file): the coherence of a state object's storage CACHE
+// (originStorage, what the live object answers) with what (*stateObject).updateTrie WRITES to the storage trie (what a reopened state reads).
 //
 // Pattern of a copy contract: one conjunct per field of the struct ("equal": a field dropped from the copy function makes its
 // conjunct fail) and freshness of the result and of every mutable component reachable from it ("independent": *big.Int, slice
@@ -222,6 +223,7 @@ package state
 //@     (forall i: int :: 0 <= i && i < len(so.delegations) ==> result.delegations[i] == so.delegations[i])
 //@ ensures [delegations-independent] !isnil(so.delegations) ==> fresh(result.delegations)
 //@ ensures [equal-dirty-delegations] result.dirtyDlgs == so.dirtyDlgs
+//@ ensures [wf] c10MapsWF(result)
 //@ // NOT-DECIDED: ensures [equal-addrHash] result.addrHash == so.addrHash   (Keccak is not modelled)
 //@ // NOT-DECIDED: ensures [equal-dbErr] result.dbErr == so.dbErr           (the memoised error is deliberately not copied, as in go-ethereum)
 
@@ -300,7 +302,7 @@ package state
 //@ ghost var c10Saved: int
 //@ func (*StateDB).IntermediateRoot props C10
 //@ requires st != nil
-//@ modifies all, c10Saved
+//@ modifies all, c10Saved, c10TrieK, c10TrieW, c10TrieDel, c10Trim
 //@ assert before call (*stateObject).updateRoot: [live-object-written] !obj.deleted      // updateRoot + updateStateObject follow on this path
 //@ assert before call (*StateDB).deleteStateObject: [deleted-object-removed] obj.deleted
 //@ assert before call (*StateDB).updateValidator: [live-validator-written] !val.deleted
@@ -311,3 +313,159 @@ package state
 //@ ghost after call (*StateDB).updateStakingTrie: c10Saved := c10Saved + 8
 //@ assert before call (Trie).Hash#1: [all-saved-before-roots] c10Saved == 15
 //@ assert before call (Trie).Hash#3: [roots-read-last] c10Saved == 15
+
+// ---------------------------------------------------------------------------------------------------------------
+// Clause 4: storage cache / storage trie coherence of (*stateObject).updateTrie (and finalise).
+// "After a commit, reopening the state yields the same storage as the live object" and "same content, same roots regardless of grouping" both
+// need: for every slot that was pending when updateTrie ran, the value the live object keeps in so.originStorage is the value that was written
+// to the storage trie (a cleared slot = TryDelete = zero). A cleared slot that keeps its old non-zero value in the cache makes GetState of the
+// live object differ from the reopened state, and makes SetState drop a later re-write of the old value as a no-op.
+//
+// The zero hash: the contract language has no Go composite literals; reading a nil map yields the engine's own zero value of the element type
+// (engine_requests/C10.md R4). The argument k is a dummy.
+//@ spec func c10At(m: Storage, k: common.Hash) common.Hash = m[k]
+//@ spec func c10Zero(k: common.Hash) common.Hash = c10At(nil, k)
+
+// Object invariant of a state object's three storage caches: they exist and are three different maps.
+//@ spec func c10MapsWF(so: *stateObject) bool = so.originStorage != nil && so.pendingStorage != nil && so.dirtyStorage != nil &&
+//@     so.originStorage != so.pendingStorage && so.originStorage != so.dirtyStorage && so.pendingStorage != so.dirtyStorage
+
+// finalise: every dirty slot becomes the pending value of its key, the other pending slots are kept, the dirty area is empty afterwards.
+// `visited` = the keys the range loop has already yielded.
+//@ func (*stateObject).finalise props C10
+//@ panics none
+//@ requires [nonnil] so != nil
+//@ assume [invariant] c10MapsWF(so)
+//@ modifies so.dirtyStorage, mapof(so.pendingStorage)
+//@ loop #1 invariant [other-maps-kept] forall m: Storage :: m != so.pendingStorage ==> mapdom(m) == old(mapdom(m)) && mapval(m) == old(mapval(m)) && len(m) == old(len(m))
+//@ loop #1 invariant [visited-dirty] forall k: common.Hash :: visited[k] ==> in(k, so.dirtyStorage)
+//@ loop #1 invariant [moved] forall k: common.Hash :: visited[k] ==> in(k, so.pendingStorage) && so.pendingStorage[k] == so.dirtyStorage[k]
+//@ loop #1 invariant [rest-kept] forall k: common.Hash :: !visited[k] ==> so.pendingStorage[k] == old(so.pendingStorage[k]) && in(k, so.pendingStorage) == old(in(k, so.pendingStorage))
+//@ loop #1 invariant [empty] len(so.dirtyStorage) == 0 ==> (forall k: common.Hash :: { mapdom(so.dirtyStorage)[k] } !visited[k])
+//@ ensures [moved] forall k: common.Hash :: old(in(k, so.dirtyStorage)) ==> in(k, so.pendingStorage) && so.pendingStorage[k] == old(so.dirtyStorage[k])
+//@ ensures [pending-kept] forall k: common.Hash :: !old(in(k, so.dirtyStorage)) ==> so.pendingStorage[k] == old(so.pendingStorage[k]) && in(k, so.pendingStorage) == old(in(k, so.pendingStorage))
+//@ ensures [dirty-cleared] len(so.dirtyStorage) == 0 && (forall k: common.Hash :: !in(k, so.dirtyStorage))
+//@ ensures [dirty-fresh] so.dirtyStorage == old(so.dirtyStorage) || fresh(so.dirtyStorage)
+//@ ensures [pending-same-map] so.pendingStorage == old(so.pendingStorage)
+//@ ensures [wf] c10MapsWF(so)
+
+// The storage trie itself (what TryUpdate / TryDelete / OpenStorageTrie do with their arguments) is C13's subject: in this heap model the
+// calls have no effect. WHICH key is written with WHICH value is recorded in ghost state at the calls (below).
+//@ func (Database).OpenStorageTrie props C10
+//@ trusted
+//@ pure
+//@ func (Trie).TryUpdate props C10
+//@ trusted
+//@ pure
+//@ func (Trie).TryDelete props C10
+//@ trusted
+//@ pure
+
+//@ func (*stateObject).getTrie props C10
+//@ panics none
+//@ requires [nonnil] so != nil
+//@ modifies so.trie, so.dbErr
+//@ ensures [cached] result == so.trie && (old(so.trie) != nil ==> so.trie == old(so.trie) && so.dbErr == old(so.dbErr))
+
+// Ghost record of the writes to the storage trie made by ONE call of updateTrie (c10TrieK is reset at its entry). The record is taken from the
+// ACTUAL ARGUMENTS of the calls (a0 = trie key, a1 = encoded value), not from local variable names:
+//   c10TrieK    the 32-byte keys written (TryUpdate or TryDelete),
+//   c10TrieDel  the keys whose last write was a TryDelete (= the zero hash was written),
+//   c10TrieW    per key, the byte string last handed to TryUpdate (abstracted by c10StrOf, specs/stdlib/c10_codec.spec),
+//   c10Trim     the slice returned by the last common.TrimLeftZeroes (names the argument of rlp.EncodeToBytes in the anchored assumption below).
+// c10Enc(v) is the byte string the code must hand to the trie for slot value v: rlp(trimLeftZeroes(v[:])), both functions uninterpreted.
+//@ ghost var c10TrieK: set[common.Hash]
+//@ ghost var c10TrieW: map[common.Hash]int
+//@ ghost var c10TrieDel: set[common.Hash]
+//@ ghost var c10Trim: []byte
+
+//@ spec func c10Enc(v: common.Hash) int = c10RlpOf(c10TrimOf(c10StrOf(v, 0, 32)))
+// The pending value of slot k as updateTrie sees it after its own finalise: the dirty value if there is one, else the pending one.
+//@ spec func c10PendIn(so: *stateObject, k: common.Hash) bool = in(k, so.dirtyStorage) || in(k, so.pendingStorage)
+//@ spec func c10Pend(so: *stateObject, k: common.Hash) common.Hash = if in(k, so.dirtyStorage) then so.dirtyStorage[k] else so.pendingStorage[k]
+
+// updateTrie. For EVERY slot k pending at entry (pending or dirty):
+//   [origin-equals-pending]  afterwards so.originStorage[k] is its pending value (whether or not the trie had to be written);
+//   [origin-equals-written]  if that value differs from the cached one, the trie was written at k, with a TryDelete exactly when the value now
+//                            cached is the zero hash, else with the encoding of the value now cached; k is in the cache;
+//   [noop-skipped-only-when-equal] the trie is written at exactly those keys (a slot is skipped iff its pending value equals the cached one);
+//   [origin-others-kept]     cache entries of slots that were not pending are untouched;
+//   [pending-cleared] / [dirty-cleared]  both areas are empty afterwards.
+// The anchored assumption [rlp-function-of-content] is the functional contract of rlp.EncodeToBytes for a []byte argument (it cannot be written
+// on the function: `unbox(val, []byte)` does not parse, engine_requests/C10.md R5); it is guarded by "the argument is the slice TrimLeftZeroes returned".
+// `modifies all(elems(byte))`: the loop stores into the address-taken locals key / value, the loop cut havocs every byte array (engine_requests/C10.md R1).
+//@ func (*stateObject).updateTrie props C10
+//@ panics none
+//@ requires [nonnil] so != nil
+//@ assume [invariant] c10MapsWF(so)
+//@ modifies so.trie, so.dbErr, so.dirtyStorage, so.pendingStorage, mapof(so.pendingStorage), mapof(so.originStorage), all(elems(byte)), c10TrieK, c10TrieW, c10TrieDel, c10Trim
+//@ ghost at entry: c10TrieK := emptyset(common.Hash)
+//@ assert before call (Trie).TryDelete: [whole-key] off(a0) == 0 && len(a0) == 32
+//@ ghost before call (Trie).TryDelete: c10TrieK := store(c10TrieK, elems(a0), true)
+//@ ghost before call (Trie).TryDelete: c10TrieDel := store(c10TrieDel, elems(a0), true)
+//@ ghost after call common.TrimLeftZeroes: c10Trim := ret
+//@ assume after call rlp.EncodeToBytes: [rlp-function-of-content] a0 == box(c10Trim) ==>
+//@     c10StrOf(elems(ret0), off(ret0), len(ret0)) == c10RlpOf(c10StrOf(elems(c10Trim), off(c10Trim), len(c10Trim)))
+//@ assert before call (Trie).TryUpdate: [whole-key] off(a0) == 0 && len(a0) == 32
+//@ ghost before call (Trie).TryUpdate: c10TrieK := store(c10TrieK, elems(a0), true)
+//@ ghost before call (Trie).TryUpdate: c10TrieW := store(c10TrieW, elems(a0), c10StrOf(elems(a1), off(a1), len(a1)))
+//@ ghost before call (Trie).TryUpdate: c10TrieDel := store(c10TrieDel, elems(a0), false)
+//@ loop #1 invariant [maps] so.originStorage == entry(so.originStorage) && so.pendingStorage == entry(so.pendingStorage) && c10MapsWF(so)
+//@ loop #1 invariant [other-maps-kept] forall m: Storage :: m != so.originStorage ==> mapdom(m) == entry(mapdom(m)) && mapval(m) == entry(mapval(m)) && len(m) == entry(len(m))
+//@ loop #1 invariant [other-errors-kept] forall o: *stateObject :: o != so ==> o.dbErr == old(o.dbErr)
+//@ loop #1 invariant [visited-pending] forall k: common.Hash :: visited[k] ==> in(k, so.pendingStorage)
+//@ loop #1 invariant [processed] forall k: common.Hash :: visited[k] ==> so.originStorage[k] == so.pendingStorage[k]
+//@ loop #1 invariant [unprocessed-kept] forall k: common.Hash :: !visited[k] ==> so.originStorage[k] == entry(so.originStorage[k]) && in(k, so.originStorage) == entry(in(k, so.originStorage))
+//@ loop #1 invariant [written] forall k: common.Hash :: visited[k] && so.pendingStorage[k] != entry(so.originStorage[k]) ==>
+//@     c10TrieK[k] && (c10TrieDel[k] <==> so.pendingStorage[k] == c10Zero(k)) && (!c10TrieDel[k] ==> c10TrieW[k] == c10Enc(so.pendingStorage[k])) && in(k, so.originStorage)
+//@ loop #1 invariant [skipped-unwritten] forall k: common.Hash :: !visited[k] || so.pendingStorage[k] == entry(so.originStorage[k]) ==> !c10TrieK[k]
+//@ loop #1 invariant [empty] len(so.pendingStorage) == 0 ==> (forall k: common.Hash :: { mapdom(so.pendingStorage)[k] } !visited[k])
+//@ ensures [origin-equals-pending] forall k: common.Hash :: old(c10PendIn(so, k)) ==> so.originStorage[k] == old(c10Pend(so, k))
+//@ ensures [origin-equals-written] forall k: common.Hash :: old(c10PendIn(so, k)) && old(c10Pend(so, k)) != old(so.originStorage[k]) ==>
+//@     c10TrieK[k] && (c10TrieDel[k] <==> so.originStorage[k] == c10Zero(k)) && (!c10TrieDel[k] ==> c10TrieW[k] == c10Enc(so.originStorage[k])) && in(k, so.originStorage)
+//@ ensures [noop-skipped-only-when-equal] forall k: common.Hash :: c10TrieK[k] <==> old(c10PendIn(so, k)) && old(c10Pend(so, k)) != old(so.originStorage[k])
+//@ ensures [origin-others-kept] forall k: common.Hash :: !old(c10PendIn(so, k)) ==> so.originStorage[k] == old(so.originStorage[k]) && in(k, so.originStorage) == old(in(k, so.originStorage))
+//@ ensures [pending-cleared] len(so.pendingStorage) == 0 && (forall k: common.Hash :: !in(k, so.pendingStorage))
+//@ ensures [dirty-cleared] len(so.dirtyStorage) == 0 && (forall k: common.Hash :: !in(k, so.dirtyStorage))
+//@ ensures [result] result == so.trie
+//@ ensures [wf] c10MapsWF(so) && so.originStorage == old(so.originStorage)
+
+// The object invariant c10MapsWF is established by newObject / deepCopy, and the three fields (and the maps behind them) are written by the
+// listed functions only (`owns`: checked on the SSA of the whole package); each of them preserves it ([wf]).
+//@ owns stateObject.originStorage, stateObject.pendingStorage, stateObject.dirtyStorage by newObject, (*stateObject).deepCopy, (*stateObject).setState, (*stateObject).GetCommittedState, (*stateObject).finalise, (*stateObject).updateTrie props C10
+
+//@ func newObject props C10
+//@ modifies nothing
+//@ ensures [wf] result != nil && fresh(result) && c10MapsWF(result)
+//@ ensures [empty-caches] len(result.originStorage) == 0 && len(result.pendingStorage) == 0 && len(result.dirtyStorage) == 0
+//@ ensures [fields] result.db == db && result.address == address && result.data.Nonce == data.Nonce && result.data.Root == data.Root && result.data.DelegationsHash == data.DelegationsHash
+//@ ensures [amounts] (data.Balance != nil ==> result.data.Balance == data.Balance) && (data.Balance == nil ==> fresh(result.data.Balance) && big(result.data.Balance) == 0) &&
+//@     (data.DelegationBalance != nil ==> result.data.DelegationBalance == data.DelegationBalance) && (data.DelegationBalance == nil ==> fresh(result.data.DelegationBalance) && big(result.data.DelegationBalance) == 0)
+//@ ensures [code-hash] !isnil(data.CodeHash) ==> result.data.CodeHash == data.CodeHash
+//@ ensures [rest-zero] result.trie == nil && isnil(result.code) && !result.dirtyCode && !result.suicided && !result.deleted && isnil(result.delegations) && !result.dirtyDlgs && result.dbErr == nil
+
+//@ func (*stateObject).setState props C10
+//@ panics none
+//@ requires [nonnil] so != nil
+//@ assume [invariant] c10MapsWF(so)
+//@ modifies mapof(so.dirtyStorage)
+//@ ensures [set] in(key, so.dirtyStorage) && so.dirtyStorage[key] == value
+//@ ensures [wf] c10MapsWF(so)
+
+// What the LIVE object answers for a committed slot: the pending value, else the cached origin value (the cache updateTrie keeps coherent
+// with the trie), else whatever the trie holds (C13 / C14: not decided), which is then cached.
+//@ func (Trie).TryGet props C10
+//@ trusted
+//@ pure
+//@ effectfree github.com/youchainhq/go-youchain/rlp.Split
+//@ func (*stateObject).GetCommittedState props C10
+//@ requires [nonnil] so != nil
+//@ assume [invariant] c10MapsWF(so)
+//@ modifies so.dbErr, so.trie, mapof(so.originStorage)
+//@ ensures [pending-first] old(in(key, so.pendingStorage)) ==> result == old(so.pendingStorage[key])
+//@ ensures [cache-second] !old(in(key, so.pendingStorage)) && old(in(key, so.originStorage)) ==> result == old(so.originStorage[key])
+//@ ensures [cache-kept] old(in(key, so.pendingStorage)) || old(in(key, so.originStorage)) ==>
+//@     mapdom(so.originStorage) == old(mapdom(so.originStorage)) && mapval(so.originStorage) == old(mapval(so.originStorage)) && so.trie == old(so.trie) && so.dbErr == old(so.dbErr)
+//@ ensures [answer-is-cached-value] !old(in(key, so.pendingStorage)) && in(key, so.originStorage) ==> so.originStorage[key] == result
+//@ ensures [other-slots-kept] forall k: common.Hash :: k != key ==> so.originStorage[k] == old(so.originStorage[k]) && in(k, so.originStorage) == old(in(k, so.originStorage))
+//@ ensures [wf] c10MapsWF(so)
